@@ -91,7 +91,7 @@ let () =
     | Exit (c, s) -> Printf.printf "OUTCOME Exit %d\nEND\n" (int_of_nat s); dead := true
     | Ok _ -> () in
   let rnow = ref Z0 and racc = ref false and rcli = ref [] and rdev = ref [] in
-  let cin0 = { ci_bad = false; ci_in = false; ci_out = false; ci_read = None; ci_wrote = None; ci_flush_ok = true } in
+  let cin0 = { ci_bad = false; ci_in = false; ci_out = false; ci_read = None; ci_wrote = None } in
   let pin0 = { pi_hup = false; pi_err = false; pi_nval = false; pi_out = false; pi_in = false; pi_read = None; pi_wrote = None; pi_finish_ok = true; pi_plans = []; pi_pre = None } in
   let rec set_nth l i x d = match l, i with
     | [], 0 -> [x] | [], _ -> d :: set_nth [] (i - 1) x d
@@ -121,8 +121,7 @@ let () =
          | None -> ())
     | ["ROUND"; now; acc] -> rnow := z_of_dec now; racc := (acc = "1"); rcli := []; rdev := []
     | ["C"; i; fl; r; w] ->
-        rcli := set_nth !rcli (int_of_string i) { ci_bad = has 'b' fl; ci_in = has 'i' fl; ci_out = has 'o' fl; ci_read = rd r; ci_wrote = wr w;
-                                                  ci_flush_ok = not (has 'x' fl) } cin0
+        rcli := set_nth !rcli (int_of_string i) { ci_bad = has 'b' fl; ci_in = has 'i' fl; ci_out = has 'o' fl; ci_read = rd r; ci_wrote = wr w } cin0
     | ["D"; i; fl; r; w; fin; pl] ->
         rdev := set_nth !rdev (int_of_string i) { pi_hup = has 'h' fl; pi_err = has 'e' fl; pi_nval = has 'n' fl; pi_out = has 'o' fl; pi_in = has 'i' fl;
                                                   pi_read = rd r; pi_wrote = wr w; pi_finish_ok = (fin = "1"); pi_plans = plans pl; pi_pre = None } pin0
